@@ -7,11 +7,24 @@
      mpz_rootrem  mode u n    0: separate   1: root == u    2: rem == u
    mpn ops: mpn_sqrtrem [u] -> [s] [r] rn ; mpn_sqrtrem_ip (r2p == sp) ; mpn_sqrtrem_norem [u] -> [s] flag (r2p == NULL)
             mpn_rootrem [u] n -> [root] [rem] rn ; mpn_rootrem_norem [u] n -> [root] flag
-            mpn_perfect_square_p [u] ; mpz_perfect_square_p u ; mpz_perfect_power_p u
+            mpn_perfect_square_p [u] (u may have zero high limbs) ; mpz_perfect_square_p u ; mpz_perfect_power_p u
+   The mpz root ops and mpn_perfect_square_p run under a watchdog: `!hang` after 20 s.
    mpn_sqrtrem1/2 and mpn_dc_sqrtrem are static in sqrtrem.c: reached through mpn_sqrtrem with 1 and 2 limbs. */
 #include "harness.h"
 #include "gmp-impl.h"
+#include <signal.h>
+#include <unistd.h>
 #define NEED(c) do { if (!(c)) return -1; } while (0)
+
+/* watchdog: the root functions with a huge index and mpn_perfect_square_p on unnormalised operands once did not
+   return (or tried to allocate terabytes).  A call that is still running after WD_SECS prints `!hang`
+   instead of stalling the whole check. */
+#define WD_SECS 20
+static sigjmp_buf wd_jmp;
+static void on_alarm(int sig) { (void)sig; siglongjmp(wd_jmp, 1); }
+#define WATCH(hung, stmt) do { signal(SIGALRM, on_alarm); \
+    if (sigsetjmp(wd_jmp, 1) == 0) { alarm(WD_SECS); stmt; alarm(0); (hung) = 0; } \
+    else { h_armed = 0; h_exc_happened = 1; (hung) = 1; } } while (0)
 
 static int op_mpz_sqrt(int argc, tok_t *a, out_t *o) {
   NEED(argc == 2 && a[0].kind == T_NUM && a[1].kind == T_NUM);
@@ -38,8 +51,9 @@ static int op_mpz_root(int argc, tok_t *a, out_t *o) {
   long mode = tok_long(&a[0]); NEED(mode >= 0 && mode <= 2);
   mpz_t u, r; mpz_init(u); mpz_init2(r, 1); tok_mpz(u, &a[1]);
   mpz_ptr rp = mode == 1 ? u : mode == 2 ? NULL : r;
-  volatile int ret = 0;
-  int e = GUARD(ret = mpz_root(rp, u, tok_ulong(&a[2])));
+  volatile int ret = 0, e = 0; int hung;
+  WATCH(hung, e = GUARD(ret = mpz_root(rp, u, tok_ulong(&a[2]))));
+  if (hung) { out_err(o, "hang"); return 0; }
   if (e) out_exc(o, e); else { if (rp) out_mpz(o, rp); out_long(o, ret != 0); }
   mpz_clear(u); mpz_clear(r); return 0;
 }
@@ -49,7 +63,9 @@ static int op_mpz_nthroot(int argc, tok_t *a, out_t *o) {
   long mode = tok_long(&a[0]); NEED(mode == 0 || mode == 1);
   mpz_t u, r; mpz_init(u); mpz_init2(r, 1); tok_mpz(u, &a[1]);
   mpz_ptr rp = mode == 1 ? u : r;
-  int e = GUARD(mpz_nthroot(rp, u, tok_ulong(&a[2])));
+  volatile int e = 0; int hung;
+  WATCH(hung, e = GUARD(mpz_nthroot(rp, u, tok_ulong(&a[2]))));
+  if (hung) { out_err(o, "hang"); return 0; }
   if (e) out_exc(o, e); else out_mpz(o, rp);
   mpz_clear(u); mpz_clear(r); return 0;
 }
@@ -59,7 +75,9 @@ static int op_mpz_rootrem(int argc, tok_t *a, out_t *o) {
   long mode = tok_long(&a[0]); NEED(mode >= 0 && mode <= 2);
   mpz_t u, s, r; mpz_init(u); mpz_init2(s, 1); mpz_init2(r, 1); tok_mpz(u, &a[1]);
   mpz_ptr sp = mode == 1 ? u : s, rp = mode == 2 ? u : r;
-  int e = GUARD(mpz_rootrem(sp, rp, u, tok_ulong(&a[2])));
+  volatile int e = 0; int hung;
+  WATCH(hung, e = GUARD(mpz_rootrem(sp, rp, u, tok_ulong(&a[2]))));
+  if (hung) { out_err(o, "hang"); return 0; }
   if (e) out_exc(o, e); else { out_mpz(o, sp); out_mpz(o, rp); }
   mpz_clear(u); mpz_clear(s); mpz_clear(r); return 0;
 }
@@ -105,9 +123,12 @@ static int op_mpn_rootrem(int c, tok_t *a, out_t *o) { return do_mpn_rootrem(0, 
 static int op_mpn_rootrem_norem(int c, tok_t *a, out_t *o) { return do_mpn_rootrem(1, c, a, o); }
 
 static int op_mpn_perfect_square_p(int argc, tok_t *a, out_t *o) {
-  NEED(argc == 1 && a[0].kind == T_VEC && a[0].n >= 1 && a[0].d[a[0].n - 1] != 0);
+  NEED(argc == 1 && a[0].kind == T_VEC && a[0].n >= 1);      /* high zero limbs are allowed (manual: any {s1p, n}) */
   long n = a[0].n; mp_limb_t *np = dst_new(n); memcpy(np, a[0].d, n * sizeof(mp_limb_t));
-  out_long(o, mpn_perfect_square_p(np, n) != 0);
+  volatile int ret = 0; int hung;
+  WATCH(hung, ret = mpn_perfect_square_p(np, n));
+  if (hung) { out_err(o, "hang"); return 0; }
+  out_long(o, ret != 0);
   if (memcmp(np, a[0].d, n * sizeof(mp_limb_t))) out_err(o, "srcmod");
   if (!dst_ok(np, n)) out_err(o, "oob");
   dst_free(np); return 0;
